@@ -206,7 +206,11 @@ func Harness_C09_fetch() {
 				ps = append(ps, h.commits[j].Sum)
 			}
 		}
-		sum, tbl := zzrepo.SaveTable(sdb, []string{"a", "b"}, []uint32{0}, [][]string{{fmt.Sprintf("k%d", i), "v"}, {"z", fmt.Sprintf("w%d", i)}}, 255)
+		ti := i
+		if zzverif.Param("reuseTip", 0) == 1 && i == n-1 && i > 0 {
+			ti = i - 1 // the newest commit carries the same table as the one before it
+		}
+		sum, tbl := zzrepo.SaveTable(sdb, []string{"a", "b"}, []uint32{0}, [][]string{{fmt.Sprintf("k%d", ti), "v"}, {"z", fmt.Sprintf("w%d", ti)}}, 255)
 		_, c := zzrepo.SaveCommit(sdb, sum, fmt.Sprintf("c%d", i), int64(1600000000+100*i), ps...)
 		h.commits = append(h.commits, c)
 		h.tables = append(h.tables, sum)
@@ -233,7 +237,13 @@ func Harness_C09_fetch() {
 			}
 			zzverif.Assume(ok)
 			has[i] = true
-			zz9Copy(ldb, sdb, h, i, true)
+			// shallow=1: a commit the client has may lack its table (left by an earlier
+			// depth-limited fetch)
+			full := true
+			if zzverif.Param("shallow", 0) == 1 && zzverif.Bool("clientShallow") {
+				full = false
+			}
+			zz9Copy(ldb, sdb, h, i, full)
 			lrs.Refs[fmt.Sprintf("remotes/origin/b%d", i)] = h.commits[i].Sum
 		}
 	}
